@@ -853,6 +853,10 @@ def run(ctx):
         guarded(ctx, tag, fn, *a)
         ctx.notes.append("stage %s: %.1f s" % (tag, time.time() - t))
 
+    ctx.trusted.append("source translator harness/lib/pysrc.py (python floats / ints read as reals; see its docstring) for the source tie")
+    ctx.clauses_proved.append("source tie: Accumulator.push of core/io/io.py, translated from the current source text on every run as a state "
+                              "transformer, is proved equal to the model's push; Welford = batch mean / variance and order independence restated "
+                              "for the translated source")
     timed("prove", ctx.prove)
     timed("source-tie", stage_srctie, ctx)
     t = time.time()
